@@ -19,7 +19,7 @@ META = {
               "stage kernels -> symbolic columns; numeric primitives uninterpreted (structural property)", "failure injection: the k-th stage call raises, k symbolic"],
     "assumptions": ["a stage failure surfaces as a Python exception", "astropy add_columns copies the column data (copy=True default)"],
 }
-LEDGER = {"quick": 2400, "thorough": 5000}
+LEDGER = {"quick": 2550, "thorough": 5000}
 
 
 def _same_col(a, b):
